@@ -41,11 +41,30 @@ func Hex(s string) string {
 	return hex.EncodeToString([]byte(s))
 }
 
+// CkptHeader is the header of a checkpoint file. Every shape below makes the file a checkpoint
+// (LocalFile.Directive looks at every line of the leading comment group, the tag is optional); the
+// shape is chosen by the file name so that a directory mixes them.
+func CkptHeader(name string) string {
+	n := 0
+	for _, c := range []byte(name) {
+		n += int(c)
+	}
+	switch n % 4 {
+	case 1:
+		return "-- written by hand\n-- atlas:checkpoint\n\n"
+	case 2:
+		return "-- atlas:checkpoint v1\n\n"
+	case 3:
+		return "-- atlas:nolint\n-- atlas:checkpoint\n-- trailing note\n\n"
+	}
+	return "-- atlas:checkpoint\n\n"
+}
+
 // Content renders a file body.
 func (f FileSpec) Content() string {
 	var b strings.Builder
 	if f.Ckpt {
-		b.WriteString("-- atlas:checkpoint\n\n")
+		b.WriteString(CkptHeader(f.Name))
 	}
 	for _, s := range f.Stmts {
 		b.WriteString(s)
@@ -307,6 +326,65 @@ func (r Run) Execute(dir migrate.Dir, st *Store) (res Result) {
 	}
 	err = ex.ExecuteN(context.Background(), r.N)
 	return Result{Outcome: Classify(err), Events: fs.events, Table: st.ShowTable()}
+}
+
+// Clone copies the store (without fault state).
+func (s *Store) Clone() *Store {
+	c := NewStore()
+	for v, r := range s.revs {
+		c.revs[v] = cp(r)
+	}
+	return c
+}
+
+// Reuse calls, on ONE Executor over a copy of the store: op (ExecuteTo(to) when to != "", else ExecuteN(n)),
+// ignoring its outcome, and then Pending; and Pending of a fresh Executor over the same directory and the
+// store as op left it. The decision must be a function of (directory, history, options): both must agree.
+func (r Run) Reuse(dir migrate.Dir, st0 *Store, to string, n int) (reused, fresh []migrate.File, rerr, ferr error, opOutcome string) {
+	st := st0.Clone()
+	fs := &faultState{}
+	st.fs = fs
+	mk := func() (*migrate.Executor, error) {
+		drv := &Driver{fs: fs, dirty: r.Dirty}
+		opts := []migrate.ExecutorOption{migrate.WithExecOrder(OrderOf(r.Order)), migrate.WithAllowDirty(r.AllowDirty)}
+		if r.Baseline != "" {
+			opts = append(opts, migrate.WithBaselineVersion(r.Baseline))
+		}
+		return migrate.NewExecutor(drv, dir, st, opts...)
+	}
+	ex, err := mk()
+	if err != nil {
+		return nil, nil, err, err, "other"
+	}
+	func() {
+		defer func() {
+			if p := recover(); p != nil {
+				opOutcome = "panic"
+			}
+		}()
+		var e error
+		if to != "" {
+			e = ex.ExecuteTo(context.Background(), to)
+		} else {
+			e = ex.ExecuteN(context.Background(), n)
+		}
+		opOutcome = Classify(e)
+	}()
+	pend := func(x *migrate.Executor) (fl []migrate.File, e error) {
+		defer func() {
+			if p := recover(); p != nil {
+				e = fmt.Errorf("panic: %v", p)
+			}
+		}()
+		return x.Pending(context.Background())
+	}
+	reused, rerr = pend(ex)
+	ex2, err := mk()
+	if err != nil {
+		return reused, nil, rerr, err, opOutcome
+	}
+	fresh, ferr = pend(ex2)
+	return
 }
 
 // History runs the runs in sequence on one store. It returns the case line
